@@ -408,11 +408,17 @@ def iterjoin(left, right, lkey, rkey, leftouter=False, rightouter=False,
     # loop until *either* of the iterators is exhausted
     # initialise here to handle empty tables
     lkval, rkval = Comparable(None), Comparable(None)
+    # keep track of whether a row group has been picked off but not yet dealt
+    # with, N.B., this cannot be worked out from the key values if either
+    # table has no rows
+    lpending, rpending = False, False
     try:
 
         # pick off initial row groups
         lkval, lrowgrp = next(lgit)
+        lpending = True
         rkval, rrowgrp = next(rgit)
+        rpending = True
 
         while True:
             if lkval < rkval:
@@ -420,26 +426,33 @@ def iterjoin(left, right, lkey, rkey, leftouter=False, rightouter=False,
                     for row in joinrows(lrowgrp, None):
                         yield tuple(row)
                 # advance left
+                lpending = False
                 lkval, lrowgrp = next(lgit)
+                lpending = True
             elif lkval > rkval:
                 if rightouter:
                     for row in joinrows(None, rrowgrp):
                         yield tuple(row)
                 # advance right
+                rpending = False
                 rkval, rrowgrp = next(rgit)
+                rpending = True
             else:
                 for row in joinrows(lrowgrp, rrowgrp):
                     yield tuple(row)
                 # advance both
+                lpending, rpending = False, False
                 lkval, lrowgrp = next(lgit)
+                lpending = True
                 rkval, rrowgrp = next(rgit)
+                rpending = True
 
     except StopIteration:
         pass
 
     # make sure any left rows remaining are yielded
     if leftouter:
-        if lkval > rkval:
+        if lpending:
             # yield anything that got left hanging
             for row in joinrows(lrowgrp, None):
                 yield tuple(row)
@@ -450,7 +463,7 @@ def iterjoin(left, right, lkey, rkey, leftouter=False, rightouter=False,
 
     # make sure any right rows remaining are yielded
     if rightouter:
-        if lkval < rkval:
+        if rpending:
             # yield anything that got left hanging
             for row in joinrows(None, rrowgrp):
                 yield tuple(row)
@@ -623,10 +636,15 @@ def iterantijoin(left, right, lkey, rkey):
 
     # loop until *either* of the iterators is exhausted
     lkval, rkval = Comparable(None), Comparable(None)
+    # keep track of whether a left row group has been picked off but not yet
+    # dealt with, N.B., this cannot be worked out from the key values if the
+    # right table has no rows
+    lpending = False
     try:
 
         # pick off initial row groups
         lkval, lrowgrp = next(lgit)
+        lpending = True
         rkval, _ = next(rgit)
 
         while True:
@@ -634,20 +652,24 @@ def iterantijoin(left, right, lkey, rkey):
                 for row in lrowgrp:
                     yield tuple(row)
                 # advance left
+                lpending = False
                 lkval, lrowgrp = next(lgit)
+                lpending = True
             elif lkval > rkval:
                 # advance right
                 rkval, _ = next(rgit)
             else:
                 # advance both
+                lpending = False
                 lkval, lrowgrp = next(lgit)
+                lpending = True
                 rkval, _ = next(rgit)
 
     except StopIteration:
         pass
 
     # any left over?
-    if lkval > rkval:
+    if lpending:
         # yield anything that got left hanging
         for row in lrowgrp:
             yield tuple(row)
